@@ -239,7 +239,7 @@ def c02():
     thorough = chk.tier == "thorough"
     # model: transcribed XOR decoder never succeeds with wrong bytes / never hits UB, for every set the front end lets through
     mcfg = "MC_XorDecoder_m" if thorough else "MC_XorDecoder_hd"
-    m1 = _bg(tlc, "MC_XorDecoder", mcfg, workers=8, timeout=1500, tag="C02", heap="12g")
+    m1 = _bg(tlc, "MC_XorDecoder", mcfg, workers=8, timeout=5000 if thorough else 1500, tag="C02", heap="12g")
     cmds = []
     i = 0
     for ti, (k, m, hd) in enumerate(XOR_TABLES):
@@ -355,7 +355,7 @@ def c06(backends=None, prop="C06"):
     thorough = chk.tier == "thorough"
     backends = backends or BUILTIN
     mcfg = "MC_XorPlanner_hd" if thorough else "MC_XorPlanner_tol"
-    m1 = _bg(tlc, "MC_XorPlanner", mcfg, workers=8, timeout=1500, tag=prop, heap="16g") if BE_XOR in backends else None
+    m1 = _bg(tlc, "MC_XorPlanner", mcfg, workers=8, timeout=5000 if thorough else 1500, tag=prop, heap="16g") if BE_XOR in backends else None
     cmds = []
     i = 0
     for be in backends:
@@ -479,7 +479,7 @@ def c04():
     chk = Check("C04")
     thorough = chk.tier == "thorough"
     mcfg = "MC_RSVand_thorough" if thorough else "MC_RSVand_quick"
-    m1 = _bg(tlc, "MC_RSVand", mcfg, workers=8, timeout=3000, tag="C04")
+    m1 = _bg(tlc, "MC_RSVand", mcfg, workers=8, timeout=6000 if thorough else 3000, tag="C04")
     stride = 1 if thorough else 4
     cmds = []
     # matrix / basis commands are split by k so that the work spreads over processes
@@ -524,7 +524,7 @@ def c19():
     be2 = [BE_ISAL_VAND, BE_ISAL_CAUCHY]
     src = open(os.path.join(core.SPEC, "MC_IsaL.cfg")).read().replace("NMax = 7", "NMax = %d" % (11 if thorough else 9))
     open(os.path.join(core.SPEC, "MC_IsaL_run.cfg"), "w").write(src)
-    m1 = _bg(tlc, "MC_IsaL", "MC_IsaL_run", workers=8, timeout=2400, tag="C19", heap="12g")
+    m1 = _bg(tlc, "MC_IsaL", "MC_IsaL_run", workers=8, timeout=6000 if thorough else 2400, tag="C19", heap="12g")
     cmds = roundtrip_cmds(chk, be2, thorough, mode=7 | 8 | 16 | 32)
     i = 0
     for be in be2:
